@@ -8,10 +8,10 @@ namespace AdaptaVerif.Spec.Scene
 open AdaptaVerif.Model.ActionQueue
 
 /-- obstacles: id ↦ (is-junction flag, polygon or `[position]`); connectors: id ↦ (source, target)
-    endpoint positions (`none` = not set yet) -/
+    ends (`none` = not set yet; an end is a free point or an attachment to a pin class of an obstacle) -/
 structure AScene where
   obst : Nat → Option (Bool × Poly)
-  conn : Nat → Option (Option Pt × Option Pt)
+  conn : Nat → Option (Option CEnd × Option CEnd)
 
 def AScene.empty : AScene := ⟨fun _ => none, fun _ => none⟩
 
@@ -21,10 +21,15 @@ def AScene.empty : AScene := ⟨fun _ => none, fun _ => none⟩
 def upd {α} (f : Nat → Option α) (id : Nat) (v : Option α) : Nat → Option α :=
   fun i => if i = id then v else f i
 
-def setEnds (ends : Option Pt × Option Pt) (e : End) (p : Pt) : Option Pt × Option Pt :=
+def setEnds (ends : Option CEnd × Option CEnd) (e : End) (p : CEnd) : Option CEnd × Option CEnd :=
   match e with
   | .src => (some p, ends.2)
   | .tar => (ends.1, some p)
+
+def endOf (ends : Option CEnd × Option CEnd) (e : End) : Option CEnd :=
+  match e with
+  | .src => ends.1
+  | .tar => ends.2
 
 /-- Immediate semantics of one API call. Edits of objects that do not exist are no-ops here
     (they are excluded by `legal`, so nothing is proved "for the wrong reason": every refinement
@@ -32,8 +37,9 @@ def setEnds (ends : Option Pt × Option Pt) (e : End) (p : Pt) : Option Pt × Op
     * an absolute move replaces the geometry: the LAST absolute move wins;
     * a relative move translates the CURRENT abstract geometry, i.e. relative moves compose
       additively with each other and with earlier absolute moves of the same transaction;
-    * `setEndpoint`: the last value per end wins;
-    * `processTransaction` / `setTransactionUse` do not change the scene. -/
+    * `setEndpoint`: the last value per end wins — whatever else happens in the transaction: a move of
+      the obstacle the end was (or will be) attached to does NOT touch the connector's ends;
+    * `processTransaction` / `setTransactionUse` / `newPin` do not change the scene. -/
 def applyOp (A : AScene) : Op → AScene
   | .addObst j id g => { A with obst := upd A.obst id (some (j, g)) }
   | .moveAbs _ id g _ => { A with obst := upd A.obst id ((A.obst id).map fun o => (o.1, g)) }
@@ -41,6 +47,7 @@ def applyOp (A : AScene) : Op → AScene
   | .delete _ id => { A with obst := upd A.obst id none }
   | .newConn id => { A with conn := upd A.conn id (some (none, none)) }
   | .setEndpoint c e p => { A with conn := upd A.conn c ((A.conn c).map fun ends => setEnds ends e p) }
+  | .newPin _ _ _ _ => A
   | .setTransactionUse _ => A
   | .processTransaction => A
 
